@@ -142,6 +142,10 @@ static void multi(const ZI* const* shipped, const std::vector<std::vector<int>>&
       for (int i = 0; i < ws[k]->n; i++) if (ws[k]->arr[i] == zi) { want = i; break; }
       uint16_t wantu = want < 0 ? (uint16_t) 0xffff : (uint16_t) want;
       g_probes.clear();
+      // second round: the manager has first been handed this very zone directly (createForZoneInfo, documented to bypass the
+      // registry) and has used it, so that one of its cached processors is bound to it: lookups must still answer from the
+      // registry alone
+      if (round == 1) { TimeZone byp = mgrs[k]->createForZoneInfo(zi); volatile int32_t sink = byp.getUtcOffset((acetime_t) 1000).toMinutes(); (void) sink; }
       uint16_t ri = regs[k]->findIndexForId(id);
       const ZI* gi = regs[k]->getZoneInfoForId(id);
       uint16_t rn = regs[k]->findIndexForName(name.c_str());
